@@ -264,7 +264,8 @@ def gen_text(rng, idx: int, patterns: list[str], eol_mode: str, garbage: bool) -
     pats = list(patterns)
     rng.shuffle(pats)
     for p in pats:
-        lines.append(f'include "{p}"')
+        # the blank after the keyword is optional in the grammar: include"x.bean" and include<TAB>"x.bean" are includes too
+        lines.append('include' + rng.choice([' ', ' ', ' ', ' ', '', '\t']) + f'"{p}"')
         if rng.random() < 0.2:
             lines.append('')
     lines.append(f'2000-01-02 * "narr{idx}"')
@@ -769,7 +770,7 @@ def monitors(scn, obs, reach: tuple[set[str], bool]) -> list[tuple[str, str]]:
             if m:
                 rel = os.path.relpath(cabs(obs['cwd'], m.group(2)), D)
                 lines = before.get(rel, (b'',))[0].decode('ascii').split('\n')
-                want_lines = [i for i, ln in enumerate(lines) if ln.startswith('include ') and f'"{m.group(1)}"' in ln]
+                want_lines = [i for i, ln in enumerate(lines) if ln.startswith('include') and f'"{m.group(1)}"' in ln]
                 if int(m.group(3)) not in want_lines:
                     fails.append(('C16:include-error-line', f'{str(exc)!r}: the include directive is on 0-based line(s) '
                                                             f'{want_lines} of {rel}'))
@@ -1110,6 +1111,33 @@ def directed_probes(ctx) -> list[tuple[str, str, dict]]:
                 get(x).raw_directives[0].raw_account.value = 'Assets:Second'
             if open(path, 'rb').read() != stub.replace(b'Assets:Stub\n', b'Assets:Second\n', 1):
                 out.append(('C16:changed-not-exact', f'{form} on one Editor: the third block\'s edit is not what the file holds', {'directed': 'editor-reuse'}))
+        # (3) a ledger large enough for a multi-block token store (the load factor is lowered for this probe): the
+        # first third of its directives is removed through edit_file; the file must hold exactly the remaining lines
+        from harness import store_driver as sd_
+        lines = [f'2000-01-{(i % 28) + 1:02d} open Assets:Big:A{i}' for i in range(60)]
+        big = os.path.join(top, 'big.bean')
+        for lf_, cut in ((4, 20), (6, 35), (3, 7)):
+            with open(big, 'wb') as f:
+                f.write(('\r\n'.join(lines) + '\r\n').encode())
+            pinned = getattr(sd_, 'LF_PINNED', False)
+            sd_.LF_PINNED = True
+            sd_.set_load_factor(lf_)
+            try:
+                ed = editor_lib.Editor(_parser())
+                with ed.edit_file(big) as file:
+                    del file.raw_directives[0:cut]
+            finally:
+                sd_.set_load_factor(1000)
+                sd_.LF_PINNED = pinned
+            ctx.count('multi_block_edit_probes')
+            want = ('\r\n'.join(lines[cut:]) + '\r\n').encode()
+            got = open(big, 'rb').read()
+            if got != want:
+                k = next((i for i in range(min(len(got), len(want))) if got[i] != want[i]), min(len(got), len(want)))
+                out.append(('C16:changed-not-exact', f'a 60-directive ledger (token store in blocks of ~{lf_}) with its first {cut} directives '
+                                                     f'removed through edit_file: the file differs from the remaining lines at byte {k} '
+                                                     f'(holds {got[k:k + 40]!r}, expected {want[k:k + 40]!r})', {'directed': 'multi-block-edit', 'lf': lf_, 'cut': cut}))
+                break
     except Exception as e:
         out.append(('C16:harness', f'directed editor probes failed: {type(e).__name__}: {e}', {'directed': 'probes'}))
     finally:
